@@ -1042,8 +1042,20 @@ func ParseAggregateTypeWithExpression(exprStr string) (aggType aggregator.Aggreg
 
 // extractFunctionName extracts function name from expression
 func extractFunctionName(expr string) string {
-	// Find first left parenthesis
-	parenIndex := strings.Index(expr, "(")
+	// Find first left parenthesis; one inside a '...' or "..." string literal
+	// is literal text, not the start of a call
+	parenIndex := -1
+	var quote byte // 0 = outside a literal, otherwise the opening quote character
+	for i := 0; i < len(expr) && parenIndex == -1; i++ {
+		switch c := expr[i]; {
+		case quote == 0 && (c == '\'' || c == '"'):
+			quote = c
+		case quote != 0 && c == quote:
+			quote = 0
+		case quote == 0 && c == '(':
+			parenIndex = i
+		}
+	}
 	if parenIndex == -1 {
 		return ""
 	}
